@@ -20,7 +20,24 @@ func (e *Engine) syncMapOf(v Value) *Map {
 	return m
 }
 
+// inHashModel stands in for assembly hash functions whose value only selects a bucket/partition
+// (xxhash in the cache ring): a deterministic function of the concrete bytes (FNV-1a).
+func inHashModel(e *Engine, c *frame, f *ssa.Function, a []Value) Value {
+	bs := e.bytesOf(a[0])
+	h := uint64(14695981039346656037)
+	for _, b := range bs {
+		if !b.IsConst() {
+			panic(e.unsupported("hash of symbolic bytes (" + f.String() + ")"))
+		}
+		h ^= b.val
+		h *= 1099511628211
+	}
+	return e.tt.Const(64, h)
+}
+
 func init() {
+	intrinsics["github.com/cespare/xxhash.Sum64"] = inHashModel
+	intrinsics["github.com/cespare/xxhash.Sum64String"] = inHashModel
 	intrinsics["(*sync.Map).Load"] = func(e *Engine, c *frame, f *ssa.Function, a []Value) Value {
 		ent := e.mapFind(e.syncMapOf(a[0]), a[1])
 		if ent == nil {
